@@ -395,6 +395,27 @@ def _minimise(case, pred, budget):
     return dict(case, ops=ops)
 
 
+def assumptions_cached():
+    """`Print Assumptions` of every statement of Properties/C06_lanes.v (18 closures over the whole hash
+    development: ~15 s), cached under the content hash of the compiled file it was computed from"""
+    import json
+    vo = os.path.join(vlib.COQ, PROPS + "o")
+    with open(vo, "rb") as fh:
+        key = hashlib.sha256(fh.read()).hexdigest()[:20]
+    cf = os.path.join(vlib.CACHE, "pa-C06_lanes-%s.json" % key)
+    try:
+        with open(cf) as fh:
+            return json.load(fh)
+    except (OSError, ValueError):
+        pass
+    ass = vlib.coq_assumptions(PROPS)
+    if "<error>" not in ass:
+        with open(cf + ".tmp%d" % os.getpid(), "w") as fh:
+            json.dump(ass, fh)
+        os.replace(cf + ".tmp%d" % os.getpid(), cf)
+    return ass
+
+
 def coq_step(rep):
     """regenerate Gen/LaneCfgGen.v, build the extraction (models only) and the lane obligations"""
     err = None
@@ -423,7 +444,7 @@ def coq_step(rep):
     if have_props:
         names = vlib.coq_obligations(PROPS)
         if ok:
-            ass = vlib.coq_assumptions(PROPS)
+            ass = assumptions_cached()
             for n in names:
                 a = ass.get(n, "?")
                 closed = "Closed under the global context" in a
